@@ -13,7 +13,7 @@ using namespace sim;
 enum { W_INSERT = 0, W_FOI, W_ERASE, W_FIND, W_VERIFY, W_ITER, W_GRACE, W_ANNOUNCE, R_FIND, W_SWEEP, OP_N };
 static const char *op_names[OP_N] = {"insert", "find_or_insert", "erase", "wfind", "verify_all", "iterate", "grace", "announce", "find", "sweep"};
 
-static int P_case1, P_case2, P_case3, P_split_top, P_find_during_split, P_reader_found, P_reader_null, P_mustfind_checked, P_reinserts, P_erased_never_destroyed, P_skipped, P_grace_ok, P_grace_fail, P_iter, P_foi_present, P_stale_found_erased, P_lifetime_anomaly, P_plain, P_val_dtor_in_run, P_ptrmode, P_alignmode, P_sweep, P_sweep_big;
+static int P_case1, P_case2, P_case3, P_split_top, P_find_during_split, P_reader_found, P_reader_null, P_mustfind_checked, P_reinserts, P_erased_never_destroyed, P_skipped, P_grace_ok, P_grace_fail, P_iter, P_foi_present, P_stale_found_erased, P_lifetime_anomaly, P_plain, P_val_dtor_in_run, P_ptrmode, P_alignmode, P_sweep, P_sweep_big, P_writer_stalled;
 
 struct Ins { uint64_t key, seq; char *addr; uint64_t inv, ret; uint32_t ret_wclk; uint64_t erase_inv, erase_ret; };
 struct Blk { char *p; size_t n; bool freed; };
@@ -58,7 +58,7 @@ struct RadixEngine : Engine {
 		P_reinserts = probe_id("reinsert_after_grace"); P_erased_never_destroyed = probe_id("erased_value_never_destroyed"); P_skipped = probe_id("ops_skipped_precondition");
 		P_grace_ok = probe_id("grace_period_completed"); P_grace_fail = probe_id("grace_period_gave_up"); P_iter = probe_id("iterations"); P_foi_present = probe_id("find_or_insert_on_present_key");
 		P_stale_found_erased = probe_id("relaxed_reader_found_erased_value"); P_lifetime_anomaly = probe_id("node_lifetime_anomaly(C16_radix_clause:not_claimed,not_reported)");
-		P_plain = probe_id("runs_with_argument-less_insert_of_a_plain_value_type"); P_val_dtor_in_run = probe_id("value_destructor_ran_while_the_tree_was_in_use"); P_ptrmode = probe_id("runs_with_a_raw_pointer_value_type"); P_alignmode = probe_id("runs_with_an_over-aligned_value_type"); P_sweep = probe_id("sweep:many_adjacent_leaves_emptied_then_iterated_and_partly_refilled"); P_sweep_big = probe_id("sweep:more_than_10000_adjacent_emptied_leaves");
+		P_plain = probe_id("runs_with_argument-less_insert_of_a_plain_value_type"); P_val_dtor_in_run = probe_id("value_destructor_ran_while_the_tree_was_in_use"); P_ptrmode = probe_id("runs_with_a_raw_pointer_value_type"); P_alignmode = probe_id("runs_with_an_over-aligned_value_type"); P_sweep = probe_id("sweep:many_adjacent_leaves_emptied_then_iterated_and_partly_refilled"); P_sweep_big = probe_id("sweep:more_than_10000_adjacent_emptied_leaves"); P_writer_stalled = probe_id("runs_with_the_writer_stalled_for_as_long_as_the_readers_run");
 	}
 	const char *name() override { return "simradix"; }
 	const char *op_name(int k) override { return k >= 0 && k < OP_N ? op_names[k] : "?"; }
@@ -141,8 +141,12 @@ struct RadixEngine : Engine {
 		}
 		if (c09 && rng.chance(1, 4)) p.knobs["plain"] = 1; // plain value type, inserted without constructor arguments
 		{ Rng vr; vr.seed(p.seed ^ 0x50545256ull); if (!p.knobs.count("plain")) { if (vr.chance(1, 6)) p.knobs["vmode"] = 2; else if (vr.chance(1, 8)) p.knobs["vmode"] = 3; } } // value type is a raw pointer / over-aligned
+		// long stall of the writer (C10): taken off the CPU at a random step of its script — possibly in the middle of an insert or a split —
+		// for as long as the readers run; a present key must still be found, and no lookup may wait for the writer
+		if (!c09 && p.ntasks > 1) { Rng lr; lr.seed(p.seed ^ 0x4c53544cull); if (lr.chance(1, 20)) { p.knobs["stall_hold"] = 1; p.knobs["stall_task"] = 1; p.knobs["stall_from"] = (int64_t)lr.below((uint64_t)wn * 120 + 50); p.knobs["force_stall"] = 1; } }
 		if (p.knobs.count("sweep_big")) { p.knobs["vmode"] = 2; p.knobs.erase("plain"); } // 8-byte values: tens of thousands of leaves must fit into the object zone
 		pick_strategy(rng, p, !c09);
+		if (p.knobs.count("force_stall")) { p.strat = S_STALL; p.strat_arg = 3; }
 	}
 
 	void setup(const Plan &p) override {
@@ -154,6 +158,7 @@ struct RadixEngine : Engine {
 		for (int t = 0; t < MAXT; t++) { inflight[t] = false; opcount[t] = 0; rdone[t] = false; rchan[t].clear(); }
 		gp_chan.clear(); ann_chan.clear();
 		plain = p.knob("plain", 0) != 0 && p.ntasks == 1; alive.clear(); recs.clear(); nfinds = 0; if (plain) probe(P_plain);
+		if (p.knob("stall_hold", 0)) probe(P_writer_stalled);
 		vmode = plain ? 1 : (p.knob("vmode", 0) == 2 ? 2 : p.knob("vmode", 0) == 3 ? 3 : 0); if (vmode == 2) probe(P_ptrmode); if (vmode == 3) probe(P_alignmode);
 		tree = obj_alloc(sut_tree_size(), 64);
 		sut_tree_construct(tree, vmode);
@@ -375,7 +380,12 @@ struct RadixEngine : Engine {
 		}
 	}
 
-	void end_of_plan(int me) override { rdone[me] = true; }
+	void end_of_plan(int me) override { rdone[me] = true; bool all = true; for (int t = 2; t <= nreaders + 1; t++) all &= rdone[t]; if (all) stall_release(); }
+	// Readers are lock-free: a lookup is a bounded descent and completes on its own steps, whatever the writer does (or does
+	// not do — it may be preempted for good in the middle of an insert). A find that re-reads unchanged locations is waiting.
+	void on_park(int task) override {
+		if (task >= 2 && inflight[task]) violation("reader_blocked", "reader %d: find() keeps re-reading unchanged locations — it waits for the writer (which may be preempted indefinitely) instead of completing on its own", task);
+	}
 
 	void finish() override {
 		verify_all("final verify");
